@@ -298,4 +298,52 @@ Section More.
     pose proof (run_stream w c d Hw) as H1.
     pose proof (IH (run F VO w c) d (proj1 (run_ok F VO Hfw_len Hsh_len Hinner_argn w c Hw))) as H2. lia.
   Qed.
+
+  Local Close Scope N_scope.
+  (* ---------- shape_ok is an invariant of reachable worlds ---------- *)
+  Definition wshape (w : world) : Prop := Forall (fun g : gstate => shape_ok F (g_ops g)) (w_graphs w).
+
+  Lemma shape_ok_add me (g : gstate) o args g' k : shape_ok F (g_ops g) -> add_op F me g o args = Ok (g', k) -> shape_ok F (g_ops g').
+  Proof.
+    intros Hok H. destruct (add_op_spec F _ _ _ _ _ _ H) as (_ & _ & _ & oi & Eops & Eo & Ea & _ & ss & rs & Hc & Hs & Hm).
+    pose proof (check_nodes_spec _ _ _ _ Hc) as Hc2. rewrite Eops.
+    assert (Hold : forall a s, get_slot_ops (g_ops g) a = Some s -> get_slot_ops (g_ops g ++ [oi]) a = Some s).
+    { intros a s Hs0. unfold get_slot_ops in *. destruct (nth_error (g_ops g) (fst a)) as [oa|] eqn:E; [|discriminate].
+      rewrite nth_error_app1 by (eapply nth_error_lt; eauto). rewrite E. exact Hs0. }
+    intros j oj E Hi. destruct (Nat.lt_ge_cases j (length (g_ops g))) as [Hlt|Hge].
+    - rewrite nth_error_app1 in E by auto. destruct (Hok j oj E Hi) as (ashs & Hf2 & Hfs). exists ashs. split; [|exact Hfs].
+      eapply Forall2_impl; [|exact Hf2]. intros a sh (s & Hs0 & Esh). exists s. auto.
+    - rewrite nth_error_app2 in E by auto. destruct (j - length (g_ops g)) as [|m]; simpl in E; [|destruct m; discriminate].
+      injection E as <-. exists (map s_shape ss). rewrite Eo, Hm. split; [|exact Hs]. rewrite Ea.
+      clear - Hc2 Hold. induction Hc2 as [|n s l l' (_ & Hg) _ IH]; simpl; constructor; auto. exists s. split; [apply Hold; exact Hg|reflexivity].
+  Qed.
+
+  Lemma run_shape (w : world) c : winv F w -> wshape w -> wshape (run F VO w c).
+  Proof.
+    intros Hw Hs. unfold run. destruct (run_cmd F VO w c) as [w'| |] eqn:Er; auto.
+    assert (Hg : forall gi g, nth_error (w_graphs w) gi = Some g -> gok F g /\ shape_ok F (g_ops g)).
+    { intros gi g E. unfold winv, wshape in *. rewrite Forall_forall in Hw, Hs. split; [apply Hw|apply Hs]; eapply nth_error_In; eauto. }
+    destruct c as [|gi o args|gi a|gi a|ps upd|ps|p v|d0 n]; simpl in Er; try (injection Er as <-; exact Hs).
+    - injection Er as <-. unfold wshape. cbn [w_graphs]. apply Forall_app. split; [exact Hs|]. constructor; [|constructor].
+      intros k oi E. destruct k; discriminate.
+    - destruct (nth_error (w_graphs w) gi) as [g|] eqn:Eg; [|discriminate].
+      destruct (add_op F gi g o args) as [[g' k]| |] eqn:Ea; try discriminate. injection Er as <-.
+      apply Forall_set_nth; [exact Hs|]. eapply shape_ok_add; [|exact Ea]. apply (Hg _ _ Eg).
+    - destruct (nth_error (w_graphs w) gi) as [g|] eqn:Eg; [|discriminate].
+      destruct (forward F g (w_env w) a) as [[[v g'] e']|] eqn:Ea; try discriminate. injection Er as <-.
+      apply Forall_set_nth; [exact Hs|]. destruct (Hg _ _ Eg) as (Hgok & Hsh).
+      destruct (forward_ok F Hfw_len _ _ _ _ _ _ Hgok Ea) as (_ & _ & (Hsv & _)).
+      eapply skel_shape_ok; [apply skel_sv; symmetry; exact Hsv|exact Hsh].
+    - destruct (nth_error (w_graphs w) gi) as [g|] eqn:Eg; [|discriminate].
+      destruct (backward F VO g (w_env w) a) as [[g' e']|] eqn:Ea; try discriminate. injection Er as <-.
+      apply Forall_set_nth; [exact Hs|]. destruct (Hg _ _ Eg) as ((Hinv & Hcl & _) & Hsh).
+      destruct (backward_spec F VO Hfw_len _ _ _ _ _ Hinv Hcl Ea) as (g1 & e1 & (Hsv & _) & _ & Hsg & _).
+      eapply skel_shape_ok; [|exact Hsh]. eapply skel_trans; [apply skel_sv; symmetry; exact Hsv|apply skel_sg; symmetry; exact Hsg].
+  Qed.
+
+  Lemma run_all_shape cs : forall w : world, winv F w -> wshape w -> winv F (run_all F VO w cs) /\ wshape (run_all F VO w cs).
+  Proof.
+    induction cs as [|c cs IH]; intros w Hw Hs; simpl; [auto|].
+    apply IH; [exact (proj1 (run_ok F VO Hfw_len Hsh_len Hinner_argn w c Hw))|apply run_shape; auto].
+  Qed.
 End More.
